@@ -112,4 +112,21 @@ func init() {
 			{Pkg: "amf0", Func: "HarnessC06_Markers", Labels: []string{"marker-eof", "marker-supported", "marker-unsupported"}, Bound: "all 256 marker bytes (symbolic) followed by 0-2 symbolic bytes"},
 		},
 	})
+	reg(&propSpec{
+		ID:   "C20",
+		Rule: "Harnesses in harness/kxps/c20.go: one sampling step from an arbitrary state, the three-window cascade from an arbitrary valid meter state, short histories from a fresh meter, the average, the kbit/s scaling and the refusal before Start.",
+		Assumptions: append([]string{
+			"instants lie in [0, 2^33) s after the Unix epoch and carry no monotonic clock reading",
+			"time.Time.Sub on symbolic instants is summarised as dsec*1e9 + dnsec (its overflow re-check, which divides a symbolic value by 1e9, is skipped); time.Time.Add/After/Equal and time.Unix are interpreted from source",
+			"float results are compared bit-exactly with the IEEE-754 evaluation of the defining formula float64(d)*1000/float64(window_ms) (no independent real-number oracle: measured out of reach), and proved finite and non-negative in the FP theory",
+			"the sampling goroutine of Start() (wall-clock timer) is not executed; doSample/sampleAverage are driven directly with symbolic instants",
+		}, commonAssumptions...),
+		Harnesses: []harnessSpec{
+			{Pkg: "kxps", Func: "HarnessC20_Step", FP: true, Labels: []string{"step-grow", "step-stall", "step-wait"}, Bound: "window in {10,30,300} s; previous sample time, now (sec < 2^33, nsec < 1e9), previous count, new count (64 bits: stall, backwards, wrap are values), previous rate (64 bits) all symbolic"},
+			{Pkg: "kxps", Func: "HarnessC20_Cascade", FP: true, Labels: []string{"cascade"}, Bound: "one doSample from an arbitrary meter state: three previous sample times, counts and rates, now and counter symbolic"},
+			{Pkg: "kxps", Func: "HarnessC20_History", FP: true, Labels: []string{"history"}, Bound: "3 observations (thorough 4) from a fresh meter at symbolic non-decreasing instants with symbolic non-decreasing counter"},
+			{Pkg: "kxps", Func: "HarnessC20_Average", FP: true, Labels: []string{"avg", "avg-uninit", "avg-zero"}, Bound: "two observations with symbolic instants and counters"},
+			{Pkg: "kxps", Func: "HarnessC20_Kbps", FP: true, Labels: []string{"kbps"}, Bound: "rate = float64(d)*1000/window_ms for symbolic d > 0; accessors before Start and after Close"},
+		},
+	})
 }
